@@ -106,15 +106,6 @@ C15_Terminates == steps <= 4 + 8 * (MaxBlocks + 1)
 FunctionalFormAgrees == done => res = GetFor(blocks, q)
 StackBounded == Len(stack) <= 3
 
-(* -------- the closed forms used by the property-level operators are exact -------- *)
-(* checked for every layout of <= 2 blocks on the grid, EVERY subset as selection, every query  *)
-Instants == (0 - 1)..(Grid + 1)
-ReductionSound ==
-    \A bl \in LayoutsUpTo(2) : \A sb \in SUBSET bl : \A qq \in Queries :
-        /\ CoverageHole(bl, sb, qq) <=> \E t \in Instants : UncoveredAt(bl, sb, qq, t)
-        /\ \A b \in bl : Overlaps(b, qq) <=> \E t \in Instants : (qq.mint <= t /\ t <= qq.maxt /\ Covers(b, t))
-ASSUME ReductionSound
-
 (* -------- leg B: the layouts handed to the harness -------- *)
 CasesFile == IF "VERIF_CASES" \in DOMAIN IOEnv THEN IOEnv.VERIF_CASES ELSE "cases.ndjson"
 CaseOf(s) == [g |-> Grid, blocks |-> [k \in DOMAIN s |-> <<TypeSeq[s[k]].res, TypeSeq[s[k]].min, TypeSeq[s[k]].max>>]]
